@@ -23,7 +23,7 @@ PROBES = {
     'C18': ['socksport-default', 'socksport-entries-1', 'socksport-entries-many', 'entry-with-options',
             'entry-host-port', 'entry-unix', 'requested-none', 'requested-present', 'requested-present-whole-line', 'requested-absent', 'port-added',
             'existing-port-used', 'api-helper', 'api-config-create', 'api-config-sync', 'api-tor-stream-via', 'concurrent-first-use', 'fallback-first-ok', 'fallback-second-ok',
-            'fallback-all-refused', 'fallback-socks-failure', 'fallback-timeout', 'segmented-delivery'],
+            'fallback-all-refused', 'fallback-socks-failure', 'fallback-first-port-not-socks5', 'fallback-timeout', 'segmented-delivery'],
 }
 
 
@@ -41,6 +41,13 @@ class MiniSocks(Peer):
 
     def data_received(self, data):
         self.buf += data
+        if self.state == 'greeting' and len(self.buf) >= 3 and self.outcome in ('malformed', 'drop'):
+            # something answers on the port, but not as Tor's SOCKS5 would: not a connection error either
+            self.state = 'done'
+            if self.outcome == 'malformed':
+                self.conn.send(b'\x04\x00')
+            self.conn.close()
+            return
         if self.state == 'greeting' and len(self.buf) >= 3:
             del self.buf[:2 + self.buf[1]]
             self.conn.send(b'\x05\x00')
@@ -344,7 +351,8 @@ class C18Run(object):
         sim, ch = self.sim, self.ch
         outcomes = {}
         for port in (9050, 9150):
-            outcomes[port] = ['ok', 'refuse', 'noroute', 'timeout', 'socksfail'][ch.weighted([3, 4, 1, 1, 2], 'outcome%d' % port)]
+            outcomes[port] = ['ok', 'refuse', 'noroute', 'timeout', 'socksfail', 'malformed', 'drop'][
+                ch.weighted([6, 8, 2, 2, 4, 1, 1], 'outcome%d' % port)]
         self.outcomes = outcomes
         sim.log('fallback', sorted(outcomes.items()))
 
@@ -355,7 +363,8 @@ class C18Run(object):
             return 'ok'
         sim.reactor.connect_policy = policy
         for port in (9050, 9150):
-            sim.net.listen('tcp', port, lambda dest, port=port: MiniSocks(self, 'ok' if outcomes[port] == 'ok' else 'fail'))
+            sim.net.listen('tcp', port, lambda dest, port=port: MiniSocks(
+                self, outcomes[port] if outcomes[port] in ('ok', 'malformed', 'drop') else 'fail'))
         ep = TorClientEndpoint('example.com', 80, reactor=sim.reactor)
         res = []
         d = ep.connect(Factory.forProtocol(Protocol))
@@ -376,6 +385,15 @@ class C18Run(object):
             sim.probe('fallback-first-ok')
             if tried != [9050] or kind != 'ok':
                 sim.fail('C18.fallback-moved-on-after-success', 'first port succeeded but tried %r, result %s' % (tried, kind))
+            return
+        if o1 in ('malformed', 'drop'):
+            sim.probe('fallback-first-port-not-socks5')
+            if tried != [9050]:
+                sim.fail('C18.fallback-moved-on-after-protocol-failure',
+                         'the first port accepted the connection and then %s; that is not a connection error, but ports tried are %r' % (
+                             'answered with a malformed method reply' if o1 == 'malformed' else 'closed it', tried))
+            if kind != 'err':
+                sim.fail('C18.fallback-wrong-error', 'protocol failure on 9050 but connect() succeeded')
             return
         if o1 == 'socksfail':
             sim.probe('fallback-socks-failure')
@@ -404,6 +422,9 @@ class C18Run(object):
             want = {'refuse': 'ConnectionRefusedError', 'noroute': 'NoRouteError'}[o2]
             if val.type.__name__ != want:
                 sim.fail('C18.fallback-not-last-error', 'all ports failed; last error was %s but connect() reported %s' % (want, val.type.__name__))
+        elif o2 in ('malformed', 'drop'):
+            if kind != 'err':
+                sim.fail('C18.fallback-wrong-error', 'protocol failure on 9150 but connect() succeeded')
         elif o2 == 'socksfail':
             if kind != 'err' or not isinstance(val.value, SocksError):
                 sim.fail('C18.fallback-wrong-error', 'SOCKS failure on 9150 but result is %r' % (val,))
